@@ -160,19 +160,22 @@ def run(ctx):
         # ---- c. error zones and ids not in the registry ----
         s.reset()
         e = int(s.c("TZERR"))
-        for db in ("b", "x"):
+        for db, order in (("b", "by-name"), ("x", "by-name"), ("b", "by-id"), ("x", "by-id")):
+            # the registry lists its zones in ascending name order (as the shipped ones do) or in ascending zone-id order
             sub = sorted(rnd.sample(range(len(NAMES[db])), 12))
+            if order == "by-id":
+                sub = sorted(sub, key=lambda z: IDS[db][z])
             m = int(s.c("MGR %s 2 %d %s" % (db, len(sub), " ".join(map(str, sub)))))
             r = s.c("MTZ %d data %d" % (m, e)).split()
             if r[1] != "0" or s.c("Q %d data" % e).split()[0] != "error":
                 s.fail("error-restore", "error zone restored as type %s" % r[1])
             s.c("PROC " + db)
             pid = len([h for h in s.hist if h.startswith("PROC")]) - 1
-            for zi in rnd.sample(range(len(NAMES[db])), 40):
+            for zi in sub + rnd.sample(range(len(NAMES[db])), 40):
                 t = int(s.c("TZ %d %d" % (pid, zi)))
                 r = s.c("MTZ %d data %d" % (m, t)).split()
                 ctx.evaluations += 1
-                nt.add((db, "subset", zi in sub))
+                nt.add((db, "subset", order, zi in sub))
                 if zi in sub:
                     if r[1] != TYPE[db][1] or int(s.c("Q %s id" % r[0])) != IDS[db][zi]:
                         s.fail("subset-present", "zone %s present in the registry restored as type %s" % (NAMES[db][zi], r[1]))
